@@ -537,8 +537,11 @@ fn deep_cases(thorough: bool) -> Vec<(String, String)> {
         ("Generic", "Array<", ">", "U8"),
     ];
     for (name, open, close, leaf) in constructs {
-        let depths: &[usize] = if thorough { &[1, 10, 19, 20, 21, 22, 23, 24, 25, 26, 64, 100, 1_000, 10_000, 100_000] } else { &[1, 19, 20, 21, 22, 25, 100, 10_000] };
-        for &depth in depths {
+        let mut depths: Vec<usize> = if thorough { vec![1, 10, 19, 20, 21, 22, 23, 24, 25, 26, 64, 100, 1_000, 10_000] } else { vec![1, 19, 20, 21, 22, 25, 100, 10_000] };
+        if thorough && (name == "Tuple" || name == "Generic") {
+            depths.push(100_000);
+        }
+        for depth in depths {
             for closed in [true, false] {
                 let v = nest(open, close, leaf, depth, closed);
                 out.push((format!("{name}:depth={depth}:closed={closed}"), format!("CALL_METHOD Address(\"{f}\") \"f\" {v};")));
@@ -546,7 +549,7 @@ fn deep_cases(thorough: bool) -> Vec<(String, String)> {
         }
     }
     // long flat inputs
-    let n = if thorough { 100_000 } else { 10_000 };
+    let n = if thorough { 30_000 } else { 10_000 };
     out.push(("long:many-instructions+error".into(), format!("{}FOO;", "DROP_ALL_PROOFS;\n".repeat(n))));
     out.push(("long:big-string".into(), format!("CALL_METHOD Address(\"{f}\") \"f\" \"{}\" 300u8;", "é".repeat(5 * n))));
     out.push(("long:many-args".into(), format!("CALL_METHOD Address(\"{f}\") \"f\" {} );", "1u8 ".repeat(n))));
